@@ -368,6 +368,11 @@ def rules(fx, rep):
     rule_prepared_types(fx, rep)
     from props import c12
     c12.rules(fx, rep)
+    # [a]P, [b]Q in the statement are the library's own multiplications: all 256-bit scalars
+    import bitlin
+    from props import c02
+    bitlin.rule_scalar_mul(fx, rep, c02.GROUPS)
+    bitlin.rule_projective_mul(fx, rep, c02.GROUPS)
 
 
 def main(tier, t0):
@@ -377,7 +382,7 @@ def main(tier, t0):
         'identity on either side is skipped (factor 1), every other pair consumes exactly its line coefficients in order, interleaved with the squarings exactly as '
         'G2Prepared::from_affine produces them for the bits of |x|>>1 (68 coefficients), conjugation for negative x; from_affine short-circuits the identity before any '
         'line computation; (2) wiring: pairing / pairing_product / pairing_multi_product = one final_exponentiation of one miller_loop over (prepare(p_i), prepare(q_i)) with '
-        'matching indices; pairing_with in both directions = Bls12::pairing(G1, G2); (3) final exponentiation exponent (C12). NOT decided: that the line functions / Miller '
+        'matching indices; pairing_with in both directions = Bls12::pairing(G1, G2); (3) final exponentiation exponent (C12); (4) the scalar multiplications forming [a]P, [b]Q (plain affine / projective paths, all 256-bit scalars, from C02). NOT decided: that the line functions / Miller '
         'function are the ate pairing, bilinearity, non-degeneracy (numerical; pinned by the known-answer test).',
         ['rustc MIR', 'line-function and Fq12 contracts', 'C12'],
         ['structure of the pairing computation, not its value'])
